@@ -15,7 +15,7 @@ import Sif.Model.MarginF64
   (Sif/Model/MarginHook.lean).
 
   `Fixes` selects between the pinned code and the repaired code for the three defects of the pinned
-  tree (F14, F14b, F15; see checks/C13.py).  The driver and the theorems use `Fixes.repaired`, which
+  tree (F14, F14b, F14c; see checks/C13.py).  The driver and the theorems use `Fixes.repaired`, which
   is /repo's working tree; the pinned variants are kept for the negative witnesses.
 -/
 namespace Sif.Margin
@@ -99,7 +99,7 @@ structure ClpParams where
 structure Fixes where
   iipCopy : Bool     -- F14: IncrementalInterestPayment works on copies, commits on success
   fcAtomic : Bool    -- F14b: the hook runs ForceCloseLong on a store branch and copies
-  openPair : Bool    -- F15: Open refuses a pair where not exactly one asset is the native one
+  openPair : Bool    -- F14c: Open refuses a pair where not exactly one asset is the native one
   deriving Repr, DecidableEq
 
 def Fixes.repaired : Fixes := ⟨true, true, true⟩
@@ -515,7 +515,7 @@ def openLong (fx : Fixes) (s : State) (msg : MsgOpen) : Except Err W := do
   let _ ← checkMinLiabilities s msg.collAmt eta pool msg.borrow
   let custody ← clpSwap s levAmt msg.borrow pool
   let _ ← ensure (!(decide (custody > (if isNative msg.coll then pool.eBal else pool.nBal)))) .custodyTooHigh
-  -- repaired code (F15): the last refusal before anything is written
+  -- repaired code (F14c): the last refusal before anything is written
   let _ ← ensure (!fx.openPair || (isNative msg.coll != isNative msg.borrow)) .invalidAsset
   dropW (openWrites { s := s, pool := pool, mtp := newMtp msg leverage } msg custody eta)
 
